@@ -427,6 +427,46 @@ func (r *Rec) Eval(c interface{}, v Verdict) bool {
 
 func (r *Rec) Requested(n int) { r.st.Requested += n }
 
+// Tally accounts for one case without serialising it: key identifies
+// the case (distinctness); sample, if not nil, is called to produce a
+// sample when one is still wanted.
+func (r *Rec) Tally(key string, v Verdict, sample func() interface{}) bool {
+	r.mu.Lock()
+	if !r.frozen {
+		if v.Skip {
+			r.st.Skipped[v.SkipReason]++
+		} else {
+			r.st.Evaluations++
+			for _, c := range v.Classes {
+				r.st.Classes[c]++
+			}
+			if v.NonTrivial {
+				r.st.NonTrivial++
+				h := hashOf([]byte(key))
+				if _, have := r.hashes[h]; !have && len(r.hashes) < maxHashes {
+					r.hashes[h] = struct{}{}
+					if len(r.st.Samples) < r.o.MaxSamples && sample != nil {
+						if js, err := json.Marshal(sample()); err == nil {
+							r.st.Samples = append(r.st.Samples, js)
+						}
+					}
+				}
+			}
+		}
+	}
+	r.mu.Unlock()
+	if v.Err != "" {
+		var raw []byte
+		if sample != nil {
+			raw, _ = json.Marshal(sample())
+		}
+		r.setCurrent(raw, "")
+		r.fail(v.Err)
+		return false
+	}
+	return true
+}
+
 // RegressFiles lists committed regression cases for a sub-check.
 func RegressFiles(property, name string) []string {
 	root := os.Getenv("VERIF_ROOT")
